@@ -19,6 +19,7 @@ import (
 	"os"
 	"os/exec"
 	"path/filepath"
+	"slices"
 	"strconv"
 	"strings"
 	"sync"
@@ -574,6 +575,32 @@ func (c *Client) Kill() {
 	c.l.Unlock()
 }
 
+// conditionalEnvVars are the environment variables Start sets on the plugin
+// process only when the ClientConfig asks for the corresponding feature. The
+// plugin side acts on them whenever they are present, so they must reflect
+// this client's configuration and not be inherited from the host: a host that
+// is itself a go-plugin plugin has them in its own environment.
+var conditionalEnvVars = []string{
+	envMultiplexGRPC,
+	"PLUGIN_CLIENT_CERT",
+	EnvUnixSocketGroup,
+	EnvUnixSocketDir,
+}
+
+// hostEnviron returns os.Environ() without go-plugin's own conditional
+// negotiation variables. All other variables are passed through untouched.
+func hostEnviron() []string {
+	environ := os.Environ()
+	env := make([]string, 0, len(environ))
+	for _, kv := range environ {
+		if key, _, _ := strings.Cut(kv, "="); slices.Contains(conditionalEnvVars, key) {
+			continue
+		}
+		env = append(env, kv)
+	}
+	return env
+}
+
 // Start the underlying subprocess, communicating with it to negotiate
 // a port for RPC connections, and returning the address to connect via RPC.
 //
@@ -656,7 +683,7 @@ func (c *Client) Start() (addr net.Addr, err error) {
 		cmd = exec.Command("")
 	}
 	if !c.config.SkipHostEnv {
-		cmd.Env = append(cmd.Env, os.Environ()...)
+		cmd.Env = append(cmd.Env, hostEnviron()...)
 	}
 	cmd.Env = append(cmd.Env, env...)
 	cmd.Stdin = os.Stdin
